@@ -240,7 +240,7 @@ def _op_gen(rng):
                 xsbase=[10 ** rng.uniform(-3, 0) for _ in range(N)])
 
 
-OPU = Unit('C13', OPA + 'opacity', _op_params_conc, pre=_op_pre, post=_op_post, native_obj=_op_obj, native_call=_op_call, gen=_op_gen, history_fixed=('N', 'native', 'xsbase'), bounds=[dict(N=3, W=2)],
+OPU = Unit(['C13', 'C04'], OPA + 'opacity', _op_params_conc, pre=_op_pre, post=_op_post, native_obj=_op_obj, native_call=_op_call, gen=_op_gen, history_fixed=('N', 'native', 'xsbase'), bounds=[dict(N=3, W=2)],
            abstract={'call:compute_opacity': _h_compute_opacity}, inline=['wavenumberGrid'], safety=('index', 'sorted'),
            result=lambda ex, st, v0: st.alloc(ex.c, ex.c.fresh_array('op', (ex.c.fresh('Wr'),))),
            short='Opacity.opacity', timeout_ms=30000,
@@ -484,7 +484,7 @@ def _kt_gen(rng):
     return d
 
 
-KTO = Unit(['C13', 'C20'], KT + 'opacity', _kt_params, pre=_kt_pre, post=_kt_post, native=_kt_native, gen=_kt_gen, bounds=[dict(N=3, W=2, G=1)],
+KTO = Unit(['C13', 'C20', 'C04'], KT + 'opacity', _kt_params, pre=_kt_pre, post=_kt_post, native=_kt_native, gen=_kt_gen, bounds=[dict(N=3, W=2, G=1)],
            abstract={'call:compute_opacity': _h_compute_kopacity}, inline=['wavenumberGrid', 'weights'], safety=('index', 'sorted'),
            result=lambda ex, st, v0: st.alloc(ex.c, ex.c.fresh_array('kop', (ex.c.fresh('Wr'), ex.c.fresh('Gr')))),
            short='KTable.opacity', timeout_ms=30000,
